@@ -301,6 +301,10 @@ func (w *world) replyFor(node string, a [][]byte) []byte {
 		return []byte("$0\r\n\r\n")
 	case strings.Contains(key, "err"):
 		return []byte("-ERR bad " + strings.ReplaceAll(key, "\r\n", "") + "\r\n")
+	case cmd == "mget" && anyKeyContains(a[1:], "err"):
+		// the session oracle expects an MGET to fail when ANY of its keys carries the marker; two
+		// keys with the same hash tag travel in one fragment, so look at all keys of the fragment
+		return []byte("-ERR bad fragment\r\n")
 	case strings.Contains(key, "movx"):
 		return []byte("-MOVED " + strconv.Itoa(int(hashkit.Hash(key))) + " 9.9.9.9:1\r\n")
 	case strings.Contains(key, "mov") && node == w.cfg.nodes[0]:
@@ -328,6 +332,15 @@ func (w *world) replyFor(node string, a [][]byte) []byte {
 	default:
 		return resp.Bulk([]byte("R(" + cmd + "," + key + ")"))
 	}
+}
+
+func anyKeyContains(keys [][]byte, sub string) bool {
+	for _, k := range keys {
+		if strings.Contains(string(k), sub) {
+			return true
+		}
+	}
+	return false
 }
 
 func indexOf(l []string, x string) int {
